@@ -40,11 +40,14 @@ def base_cases(draw, ncomp=1, min_n=3, max_n=30):
     n = len(cloud["cells"])
     kind = draw(st.sampled_from(["unit", "int", "big", "small", "mixed"]))
     data = [draw(gen.data_values(n, kind)) for _ in range(ncomp)]
-    wmode = draw(st.sampled_from(["none", "given", "given", "uniform", "zeros"]))
+    wmode = draw(st.sampled_from(["none", "given", "given", "uniform", "zeros", "counts"]))
     if wmode == "zeros":
         # some data switched off with a weight of exactly zero (flagged outliers): they leave the residual term, and nothing else changes -
         # the column scaling that defines the damping norm is still that of the whole Jacobian
         weights = [[0.0 if (k + c) % 4 == 1 else v for k, v in enumerate(draw(gen.weights_values(n)))] for c in range(ncomp)]
+    elif wmode == "counts":
+        # numbers of observations per block (what BlockReduce(np.size) returns) used as weights, in the integer dtype they come in
+        weights = [[float(v) for v in draw(st.lists(st.integers(1, 9), min_size=n, max_size=n))] for _ in range(ncomp)]
     elif wmode == "uniform":
         # all weights equal to a constant other than 1 (they still rescale the damping)
         weights = [[draw(st.sampled_from([0.01, 0.25, 3.0, 100.0]))] * n for _ in range(ncomp)]
@@ -53,7 +56,7 @@ def base_cases(draw, ncomp=1, min_n=3, max_n=30):
     damping = draw(st.one_of(st.none(), gen.log_uniform(-8, 2)))
     m = draw(st.integers(1, 8))
     query = [[draw(gen.finite(-1, cloud["side"] + 1)), draw(gen.finite(-1, cloud["side"] + 1))] for _ in range(m)]
-    return dict(cloud=cloud, data=data, weights=weights, damping=damping, query=query, shape=draw(st.sampled_from(blocks.shape_options(n))),
+    return dict(cloud=cloud, data=data, weights=weights, int_weights=(wmode == "counts"), damping=damping, query=query, shape=draw(st.sampled_from(blocks.shape_options(n))),
                 orders=draw(vbuild.orders_strategy()), int_dtype=(kind == "int" and draw(st.booleans())), force_container=draw(st.sampled_from(vbuild.CONTAINERS)))
 
 
@@ -76,7 +79,7 @@ def arrays(case):
         shape = [len(es)]
     e, n = lay(es, shape), lay(ns, shape)
     data = [lay(d, shape, "int64" if case.get("int_dtype") else "float64") for d in datas]
-    weights = None if ws is None else [lay(w, shape) for w in ws]
+    weights = None if ws is None else [lay(w, shape, "int64" if case.get("int_weights") and not case.get("reoccupied") else "float64") for w in ws]
     qe, qn = gen.cloud_query(case["cloud"], case["query"])
     return e, n, data, weights, np.array(qe), np.array(qn)
 
